@@ -450,6 +450,10 @@ func c15Fixed() []verifh.Section {
 			"add f:NaN", "add f:-Inf", "add y:", "add z:", "add q:boom", "add x:boom", "add d:255", "remove r:255", "get i:3"}},
 		{Cfg: odd, Ops: []string{"add m:4294967295", "add w:-1", "add k:65535", "add h:-1", "add f:+Inf", "add b:-1", "remove s:-1",
 			"addw n:18446744073709551615 50", "remove i:-1", "get q:boom", "get y:"}},
+		// a String() that does not return, every way, at both lock-free call sites and under the read lock of Get
+		{Cfg: cfg, Ops: []string{"add s:a", "padd t:node 1 err", "padd t:node 2 str", "add t:node", "paddw t:node 50 2 rt",
+			"add p:node1", "paddr p:node1 20 1 exit", "get i:7", "paddr p:node1 20 2 exit", "addw p:node1 30", "premove p:node1 1 err",
+			"pget k1 err", "pget k2 str", "pget k3 rt", "pget k4 exit", "padd t:a 2 err", "pget k5 err", "add s:node", "paddw p:node 0 2 str", "remove t:node", "get i:7"}},
 		// weight overflow on the default ring
 		{Cfg: cfg, Ops: []string{"addw s:a 92233720368547759", "addw s:b 184467440737095517", "addw s:c 9223372036854775807", "addw s:d 200"}},
 	}
@@ -631,9 +635,13 @@ func c15Ops(r *verifh.Rng, pop []string, nops int, present *[]string, sep string
 		if gates && sep == " " && r.Chance(1, 12) {
 			// a user-supplied String() that does not return: lookup key (under the read lock) or node (lock free)
 			kind := r.PickS("err", "str", "rt", "exit")
-			if r.Chance(1, 3) || (n[0] != 't' && n[0] != 'p') {
+			if r.Chance(1, 3) {
 				ops = append(ops, fmt.Sprintf("pget k%d %s", r.Intn(1000), kind))
 				continue
+			}
+			if n[0] != 't' && n[0] != 'p' {
+				// a Stringer whose repr coincides with (or is a label neighbour of) common population members
+				n = r.PickS("t:node", "p:node1", "t:n1", "p:n", "t:10.0.0.7:6379", "p:1", "t:11", "p:cache")
 			}
 			nth := r.Range(1, 2)
 			switch r.Intn(4) {
